@@ -306,3 +306,38 @@ Theorem model_is_code_pendulum_parse : forall du rs o s, iso_native (iso8601 rs)
   pchain_parser_parse rs (iso8601 rs) du s o = parse_full du rs o s.
 Proof. exact pchain_full_eq. Qed.
 Print Assumptions model_is_code_pendulum_parse.
+
+(* ---- parse_iso8601 returns objects of the native classes, BOTH backends, EVERY string: every value the parser models return went through a
+   validating constructor (compiled: PyDateTime / PyDate / PyTime::new after the `as u8` casts; pure Python: datetime / date / time in the post-match
+   code), so a datetime / date / time has its fields inside their ranges (no hour 24, second 60, month 13, day 0 ...) and nothing else is returned but
+   a Duration.  This discharges the side condition iso_native of the model_is_code theorems above. ---- *)
+Theorem parse_iso8601_returns_native : forall rs s i, iso8601 rs s = Ok i ->
+  native_ok (R_i i) /\ match i with I_p p => p_native p | _ => True end.
+Proof.
+  intros rs s i E. split; [exact (iso8601_native rs s i E)|]. destruct i as [p| |]; try exact I.
+  destruct rs; cbn [iso8601] in E.
+  - unfold rs_iso8601 in E. destruct (existsb is_surrogate s); [discriminate|]. destruct (cur s =? ch_P).
+    + destruct (rs_raw s); discriminate.
+    + unfold lift_p in E. destruct (rs_parse_iso s) as [q|e] eqn:Eq; [|discriminate]. injection E as <-. exact (rs_parse_iso_native _ _ Eq).
+  - unfold py_iso8601 in E. cbv zeta in E. destruct (match_duration (fold_str s)) as [m|].
+    + destruct (negb (runs_ok m)); [discriminate|]. destruct (py_native (fold_str s)) as [[x ob]|e]; [discriminate|destruct e; discriminate].
+    + unfold lift_p in E. destruct (py_parse_iso (fold_str s)) as [q|e] eqn:Eq; [|discriminate]. injection E as <-. exact (py_parse_iso_native _ _ Eq).
+Qed.
+Print Assumptions parse_iso8601_returns_native.
+
+(* the ladder and the interval rung without side condition *)
+Theorem model_is_code_parsing_parse_all : forall du rs o s,
+  pchain_parse_ladder (iso8601 rs) du s o = base_parse du rs o s /\
+  pchain_parse_iso8601_interval (iso8601 rs) s = match interval_parse (iso8601 rs) s with Ok f => Ok (R_form f) | Raise e => Raise e end.
+Proof.
+  intros du rs o s. assert (W : iso_wf (iso8601 rs)) by (intros x i E; exact (proj1 (iso8601_native rs x i E))).
+  split; [apply pchain_parse_ladder_eq; exact W|apply pchain_parse_iso8601_interval_eq; exact W].
+Qed.
+Print Assumptions model_is_code_parsing_parse_all.
+
+(* pendulum.parse(text, **options): the translated chain IS parse_full, every string, every option record, both backends.  Remaining hypotheses: the
+   opaque dateutil argument returns objects of the native classes (a genuine assumption on the oracle), options["now"] is a datetime *)
+Theorem model_is_code_pendulum_parse_all : forall du rs o s, du_native du -> wf_now o ->
+  pchain_parser_parse rs (iso8601 rs) du s o = parse_full du rs o s.
+Proof. exact pchain_full_eq_all. Qed.
+Print Assumptions model_is_code_pendulum_parse_all.
